@@ -567,6 +567,17 @@ class World(object):
         s, w, f = fmt
         return (None if s is None else bool(s)), w, f
 
+    @staticmethod
+    def with_n_int(rs, w, f, ni):
+        """Documented meaning of n_int given with exactly one other size: the third follows
+        arithmetically, counting the sign bit of the REQUESTED signedness."""
+        if ni is not None:
+            if w is None and f is not None:
+                w = ni + f + (1 if rs else 0)
+            elif f is None and w is not None:
+                f = w - ni - (1 if rs else 0)
+        return w, f
+
     def room(self):
         if len(self.live()) >= MAX_SLOTS:
             raise Skip('world full')
@@ -715,12 +726,22 @@ class World(object):
         st.kind = 'construct'
         st.pure = True
         st.srcs = [src]
-        st.store = Store('new', src=src, route='ctor_from', kw_modes=kw, fmt_req=(s, w, f),
+        ni = op.get('n_int') if op.get('dtype') is None else None
+        req = (s, w, f)
+        if ni is not None:
+            if self.template is not None:
+                raise Skip('n_int under a class template')     # (sizes then go through the template's resize)
+            rs = True if s is None else s                       # the constructor's default signedness
+            w2, f2 = self.with_n_int(rs, w, f, ni)
+            req = (rs, w2, f2)
+        st.store = Store('new', src=src, route='ctor_from', kw_modes=kw, fmt_req=req,
                          judge_cb=False)
         st.extra['tpl'] = self.template
         yield
         if op.get('dtype') is not None:
             x = Fxp(self.obj(src), dtype=op['dtype'], **kw)
+        elif ni is not None:
+            x = Fxp(self.obj(src), s, w, f, n_int=ni, **kw)
         else:
             x = Fxp(self.obj(src), s, w, f, **kw)
         self.finish_new(st, x)
@@ -742,14 +763,20 @@ class World(object):
         st.pure = True
         st.srcs = [like] + ([src] if src is not None else [])
         lo = self.obj(like)
-        req = (lo.signed if s is None else s, lo.n_word if w is None else w, lo.n_frac if f is None else f)
+        ni = op.get('n_int')
+        rs = bool(lo.signed) if s is None else s
+        w2, f2 = self.with_n_int(rs, w, f, ni)
+        req = (rs, lo.n_word if w2 is None else w2, lo.n_frac if f2 is None else f2)
         st.store = Store('new', src=src, route='like_kw', modes_from=('slot', like), fmt_req=req,
                          judge_cb=False)
         st.extra['val'] = val
         st.extra['like'] = like
         yield
         a = self.obj(src) if src is not None else (None if val is None else V.carrier(val))
-        x = Fxp(a, s, w, f, like=lo)
+        if ni is not None:
+            x = Fxp(a, s, w, f, n_int=ni, like=lo)
+        else:
+            x = Fxp(a, s, w, f, like=lo)
         self.finish_new(st, x)
 
     def op_new_tplkw(self, st):
